@@ -329,6 +329,12 @@ func c17Copy(r *core.Report) {
 						key := "copy:" + site + "/" + tag
 						pos := p.Pos(l.lit.Pos())
 						if why, ok := c17Translated[versionOf(src)+"."+sname+"."+tag+"->"+tv+"."+l.typ.Obj().Name()]; ok {
+							if tag == "required" && tv == "v2" && l.typ.Obj().Name() == "Parameter" {
+								if bad := requiredFromOwner(ff, info, l); bad != "" {
+									r.Bad(key, pos, bad)
+									continue
+								}
+							}
 							r.OK(key, pos, "translated: "+why)
 							continue
 						}
@@ -778,4 +784,55 @@ func c17Order(r *core.Report) {
 		}
 		r.Check(firstDefs > lastLook, "order:definitions-after-classification", p.Pos(top.Body.List[firstDefs].Pos()), "the definitions enter components.Schemas after the last classification", "the OpenAPI 2 definitions are stored into components.Schemas before the parameters and paths are converted: a '#/parameters/X' reference whose X is also a definition name is converted as a form field (the parameter disappears and a request body appears)")
 	})
+}
+
+// requiredFromOwner: a form field's `required` flag is its name's membership in the `required` list
+// of the object schema that owns the properties map the field was taken from — not in the field's
+// own schema. Returns why the literal's Required value violates that ("" when fine).
+func requiredFromOwner(ff *core.FuncFacts, info *types.Info, l *c17Lit) string {
+	// chain of the source object: taken from another copied field (Description, Enum, ...)
+	var objChain []string
+	for _, f := range []string{"Description", "Enum", "Default", "MinLength"} {
+		for _, e := range l.values[f] {
+			for _, ch := range fieldChains(ff, info, e) {
+				if len(ch) >= 2 {
+					objChain = ch[:len(ch)-1]
+				}
+			}
+		}
+	}
+	isProperty := false
+	cut := -1
+	for i, s := range objChain {
+		if s == "Properties" {
+			isProperty = true
+			cut = i
+		}
+	}
+	if !isProperty {
+		return "" // the schema is not reached through a properties map: its own list is all there is
+	}
+	owner := strings.Join(objChain[:cut], ".")
+	// where the Required value comes from: the range expressions controlling its assignments
+	for _, e := range l.values["Required"] {
+		id, ok := ast.Unparen(e).(*ast.Ident)
+		if !ok {
+			continue
+		}
+		for _, a := range ff.Assigns(info.ObjectOf(id)) {
+			for _, rg := range a.Ranges {
+				for _, ch := range fieldChains(ff, info, rg) {
+					if len(ch) == 0 || ch[len(ch)-1] != "Required" {
+						continue
+					}
+					got := strings.Join(ch[:len(ch)-1], ".")
+					if got != owner {
+						return fmt.Sprintf("the form field's required flag is looked up in the `required` list at %s, but the field was taken from the properties of %s: the list that says which properties are required is the owner's, so every form field comes back optional", got, owner)
+					}
+					return ""
+				}
+			}
+		}
+	}
+	return "the form field's required flag is not derived from a `required` list"
 }
